@@ -8,7 +8,10 @@ Implementation functions driven (real code from $VERIF_REPO/src):
   PixelToReference/ReferenceToPixel/PixelToPixel/ImageToReference/ReferenceToImage/
   ImageToImage transformers (constructor, .affine, __call__, for_image(s)),
   map_pixel_into_coordinate_system, map_coordinate_into_pixel_matrix,
-  volume.VolumeGeometry.from_attributes / from_components and accessors.
+  get_image_coordinate_system, _get_spatial_information, iter_tiled_full_frame_data (-> compute_tile_positions_per_frame),
+  <Transformer>.for_image, PixelToPixel/ImageToImage.for_images on synthetic datasets (model-compared),
+  volume.VolumeGeometry.from_attributes / from_components and accessors (incl. pixel_spacing,
+  spacing_between_slices, voxel_volume, physical_extent/volume, direction, spacing/unit vectors, inverse_affine).
 Model: coq/theories/C10_Model.v; theorems: C10_Props.v.
 """
 import itertools
@@ -30,6 +33,8 @@ ORACLE_PREMISES = [
     'np.argsort on 3 items breaks ties by lowest index first (insertion sort)',
     'np.sqrt is modelled only on rationals that are exact squares (spacing / direction_cosines accessors)',
     'np.around rounds half to even; exact-half inputs exercised only on power-of-two geometries where float64 is exact',
+    'a dataset is the record of the attributes _get_spatial_information reads; pydicom attribute access, DS->float and '
+    'is_multiframe_image (IOD table, substitute table here) enter as booleans chosen from the SOP class',
 ]
 MODELLED = ('spatial.py: get_normal_vector, create_rotation_matrix, create_affine_matrix_from_attributes, '
             '_create_inv_affine_matrix_from_attributes (np.linalg.inv = adjugate/det), rotation_for_patient_orientation, '
@@ -427,7 +432,7 @@ def _ds_cases(rng, N):
         info(d, rng.randint(1, _ds_nframes(d)), False, g=g)
         if rng.random() < 0.5:
             info(d, None, True, g=g)
-    for _ in range(6 * N):                         # TILED_FULL whose origin item carries a Z offset (seg/sop.py writes it)
+    for _ in range(6 * N):                         # TILED_FULL whose origin item carries a Z offset (seg/sop.py writes it; D95)
         g = _geom(rng)
         g['pos'][2] = '0'
         z = str(_dy(rng, -40, 40) or F(3))
@@ -515,7 +520,7 @@ def _ds_cases(rng, N):
         g = _geom(rng)
         g['pos'][2] = '0'
         tf = rng.random() < 0.6
-        d = _ds_wsi(rng, g, tf, None)
+        d = _ds_wsi(rng, g, tf, rng.choice([None, None, str(_dy(rng, -40, 40))]))
         d['focal'] = 1
         nfr = _ds_nframes(d)
         rel = rng.choice(['frame_tpm', 'frame_tpm', 'tpm_frame', 'frame_frame', 'other_for', 'no_for'])
@@ -1766,11 +1771,18 @@ def _oracle_ds_info(c, out):
     want = [_ref_of(ge, F(q[0]), F(q[1])) for q in c['pts']]
     if not _allclose(p2r[1], want, 1e3):
         return f'P2R.for_image(p) = {p2r[1]}, expected {want}'
+    if d['sop'] == 'ct':
+        ss_want = F(d['root']['ss'] or 1)
+    else:
+        pms = [fg['pm'] for fg in [d['shared']] + (d['perframe'] or []) if fg and fg['pm'] is not None]
+        ss_want = F(pms[0]['ss'] or 1)
     for q, x in zip(c['pts'], want):
         for name, A, h in (('R2P', r2p, 0.0), ('R2I', r2i, 0.5)):
-            got = [sum(A[i][j] * float(x[j]) for j in range(3)) + A[i][3] for i in range(3)]
-            if not _allclose(got, [q[0] + h, q[1] + h, 0], 1e3):
-                return f'{name}.for_image maps the position of pixel {q} to {got}'
+            for k in (0, 2):      # in the plane and two units along the normal: slice index k / slice spacing (default 1)
+                y = [x[i] + k * n[i] for i in range(3)]
+                got = [sum(A[i][j] * float(y[j]) for j in range(3)) + A[i][3] for i in range(3)]
+                if not _allclose(got, [q[0] + h, q[1] + h, k / ss_want], 1e3):
+                    return f'{name}.for_image maps the position of pixel {q} + {k} n to {got} (slice spacing {ss_want})'
         got = [sum(i2r[i][j] * v for j, v in enumerate([q[0] + 0.5, q[1] + 0.5, 0.0])) + i2r[i][3] for i in range(3)]
         if not _allclose(got, x, 1e3):
             return f'I2R.for_image(p + 1/2) = {got}, expected {x}'
